@@ -31,4 +31,5 @@ pub mod props {
     pub mod c18;
     pub mod c19;
     pub mod holder;
+    pub mod proto;
 }
